@@ -409,10 +409,10 @@ class Codec:
                 type(a[1]).__name__, 'accepted as %r' % [str(q) for q in out[1]] if out[0] == 'ok' else 'answered with %r' % out[1])))
         if a[0] in ('list', 'tuple') and any(q[0] == 'bad' and q[1] is not None and not isinstance(q[1], (list, tuple)) for q in a[1]) and out[0] == 'ok':
             viol.append(('C14', 'reject_type', 'a list holding an unsupported type is accepted: %r -> %r' % (a, [str(q) for q in out[1]])))
-        if a[0] in ('list', 'tuple') and a[1] and all(q[0] == 'int' and q[1] >= 0 for q in a[1]) and out[0] == 'ok':
+        if a[0] in ('list', 'tuple') and a[1] and all(q[0] in ('int', 'intlike') and q[1] >= 0 for q in a[1]) and out[0] == 'ok':
             # a run of integer codes is read like the same codes in one `;`-separated string: every colour
             # function with the arguments that follow it — complete or cut short by the end of the run — is ONE setting
-            cs = [q[1] for q in a[1]]
+            cs = [int(q[1]) for q in a[1]]
             groups, i = [], 0
             while i < len(cs):
                 if cs[i] in (38, 48, 58) and i + 1 < len(cs) and cs[i + 1] in (5, 2):
@@ -436,10 +436,10 @@ class Codec:
         # a string and partly as ints is not one of the documented spellings, and the code joins such
         # codes only within one nesting level)
         mixed = any(q[0] == 'str' and any(it.strip().isdigit() for it in q[1].split(';')) for q in a[1]) if a[0] in ('list', 'tuple') else False
-        if a[0] in ('list', 'tuple') and out[0] == 'ok' and any(q[0] == 'int' for q in a[1]) and not mixed:
+        if a[0] in ('list', 'tuple') and out[0] == 'ok' and any(q[0] in ('int', 'intlike') for q in a[1]) and not mixed:
             wrapped, run = [], []
             for q in a[1]:
-                if q[0] == 'int':
+                if q[0] in ('int', 'intlike'):
                     run.append(q)
                 else:
                     if run: wrapped.append(('list', run)); run = []
